@@ -13,7 +13,7 @@ rm -rf "$WT"; git -C /repo worktree prune
 git -C /repo worktree add --detach "$WT" HEAD -q || exit 2
 : > "$LOG"
 res() { echo "$1" >> "$LOG"; }
-cd "$WT"
+cd "$WT"; mkdir -p "$WT/target"
 export CARGO_NET_OFFLINE=true
 # 1. demo on the clean checkout
 ( bash "$SRC/demo/run.sh" "$WT" ) >> "$LOG" 2>&1; clean_rc=$?
